@@ -268,8 +268,25 @@ func c14Shipped(rel string) string {
 // Demanded: every generation succeeds if the first did, all outputs are byte-identical to the first, and
 // the parsed schema object (every slice up to its capacity, the comment map) is what it was before.
 
-// c14DeepDump renders everything reachable from the schema, slices up to their capacity.
-func c14DeepDump(s *tlparser.Schema) string {
+// c14DeepDump renders everything reachable from the schema, slices up to their capacity. sorted: the
+// definition lines (within len) in lexical order, nothing beyond len — equal sorted dumps with unequal
+// plain dumps mean "the same definitions, each intact, in another order".
+func c14DeepDump(s *tlparser.Schema) string { return c14DeepDumpOrd(s, false) }
+
+func c14DeepDumpOrd(s0 *tlparser.Schema, sorted bool) string {
+	s := s0
+	if sorted {
+		c := *s0
+		c.Objects = append([]tlparser.Object(nil), s0.Objects...)
+		c.Methods = append([]tlparser.Method(nil), s0.Methods...)
+		sort.SliceStable(c.Objects, func(i, j int) bool {
+			return fmt.Sprintf("%#v", c.Objects[i]) < fmt.Sprintf("%#v", c.Objects[j])
+		})
+		sort.SliceStable(c.Methods, func(i, j int) bool {
+			return fmt.Sprintf("%#v", c.Methods[i]) < fmt.Sprintf("%#v", c.Methods[j])
+		})
+		s = &c
+	}
 	var b strings.Builder
 	ps := func(p []tlparser.Parameter) {
 		fmt.Fprintf(&b, "[%d/%d", len(p), cap(p))
@@ -368,21 +385,13 @@ func c14SameGen(a, b map[string][]byte) bool {
 
 const c14RegenOK = "gens=ok,ok,ok,ok same=1 schema=unchanged fresh=1"
 
-// c14Regen: text is the schema text, or "@<path relative to the repository>".
 func c14Regen(text string) string {
-	if strings.HasPrefix(text, "@") {
-		b, err := os.ReadFile(filepath.Join(c14Root, filepath.FromSlash(text[1:])))
-		if err != nil {
-			return "regen=unreadable"
-		}
-		text = string(b)
-	}
 	r, timedOut := c14RunParser(text)
 	if timedOut || r.panic != "" || r.err != nil || r.s == nil {
 		return "regen=unparsed"
 	}
 	s := r.s
-	before := c14DeepDump(s)
+	before, beforeSorted := c14DeepDump(s), c14DeepDumpOrd(s, true)
 	c14Seq++
 	work := filepath.Join(c14Scratch, fmt.Sprintf("r%d", c14Seq))
 	defer os.RemoveAll(work)
@@ -414,7 +423,10 @@ func c14Regen(text string) string {
 	schema := "unchanged"
 	if after := c14DeepDump(s); after != before {
 		schema = "changed"
-		c14Note("regen_schema_changed", c14FirstDiffLine(before, after))
+		if c14DeepDumpOrd(s, true) == beforeSorted {
+			schema = "reordered" // every definition intact, only the order of the caller's Objects / Methods differs
+		}
+		c14Note("regen_schema_"+schema, c14FirstDiffLine(before, after))
 	}
 	fresh := "0"
 	if r2, t2 := c14RunParser(text); !t2 && r2.err == nil && r2.panic == "" && r2.s != nil {
